@@ -16,6 +16,11 @@
 //!                      implicit grid: OriginZeroLine::into_track_vec_index asserts)
 //!      last line `SUMMARY ...`.
 //!      family 0: anything; 1 (C05's subset): every tree has a display:none node below the root; 2 (C06's): a position:absolute one
+//! `vh taffytree cases <seed> <n> <start> <family> <maxnodes> real`   the same trees with the REAL cache (no exact-key hook): `R` = per
+//!      pass and node the 21 layout ints + the number of compute_cached_layout calls, of cache hits (event trace) and of
+//!      measure-function calls (counted per NodeId by the measure closure); `L` as above (model: coq/Model/TaffyEngineRealRun.v)
+//! `vh taffytree chains <start> <n> [step] [query limit]`   deterministic single-child chains over one measured leaf, real cache, same
+//!      `C` / `R` format + `Q <idx> <total queries> <description>` (see `tchain`); `SKIP <idx> <limit>` over the query limit
 //! `vh taffytree case <seed> <idx> [family] [maxnodes]`   one case again, with the tree printed on stderr
 //!
 //! Generator: `treegen::tree` (depth <= 4, <= `maxnodes` (default 12) nodes, <= 4 children), containers AND leaves display block /
